@@ -37,7 +37,7 @@ ENGINES = {
     "core": dict(
         path="harness/core_*.go coq/Core coq/Oracles/CoreCheck.v",
         about="histories of SI requests against the real ClusterContext; observations after every step; property oracles and model correspondence evaluated in Coq",
-        n=dict(quick=30, thorough=150), shards=dict(quick=2, thorough=6), search_shards=2,
+        n=dict(quick=30, thorough=150), shards=dict(quick=3, thorough=6), search_shards=2,
         kinds={}, classify=_classify, index_div=1000,
     ),
 }
